@@ -5,7 +5,8 @@ from .rng import Rng
 
 def _gen_model_any(rng: Rng):
     spec = modelgen.gen_spec(rng.fork('spec'))
-    cfg = cfggen.gen_cfg(rng.fork('cfg'), spec)
+    # homonym types only matter where forwarding lambdas spell them: mostly configure such models all-MTS
+    cfg = cfggen.gen_cfg(rng.fork('cfg'), spec, force_all_mts=bool(spec.get('homonyms')) and rng.chance(70))
     return spec, cfg
 
 
